@@ -23,12 +23,16 @@ pub struct Case {
     pub d: usize,
     /// Some(c): first call offers c bytes with a Sync flush, then Finish with the rest
     pub sync_cut: Option<usize>,
+    /// filler bytes in front of the pattern: moves the repeat to an absolute stream offset
+    /// (the second copy then starts at base + d: around 32 KiB, 64 KiB, 128 KiB boundaries)
+    pub base: usize,
 }
 
 pub fn input_of(c: &Case) -> Vec<u8> {
     let mut l = Lcg(0x5151 ^ crate::util::seed() ^ ((c.r as u64) << 20));
     let y: Vec<u8> = (0..c.r).map(|_| l.byte() | 1).collect();
-    let mut v = y.clone();
+    let mut v: Vec<u8> = (0..c.base).map(|i| if c.filler == 0 { 0 } else { [0x10u8, 0x20, 0x30, 0x40, 0x50, 0x60, 0x70][i % 7] }).collect();
+    v.extend_from_slice(&y);
     for i in 0..c.d - c.r {
         v.push(if c.filler == 0 { 0 } else { [0x10u8, 0x20, 0x30, 0x40, 0x50, 0x60, 0x70][i % 7] });
     }
@@ -105,7 +109,7 @@ pub fn check(c: &Case) -> Result<(usize, usize), (String, String)> {
 }
 
 fn to_json(c: &Case) -> Value {
-    json!({"wbits": c.wbits, "level": c.level, "strat": c.strat, "relevel": c.relevel, "r": c.r, "filler": c.filler, "d": c.d, "sync_cut": c.sync_cut})
+    json!({"wbits": c.wbits, "level": c.level, "strat": c.strat, "relevel": c.relevel, "r": c.r, "filler": c.filler, "d": c.d, "sync_cut": c.sync_cut, "base": c.base})
 }
 
 pub fn run(tier: &str) -> i32 {
@@ -137,10 +141,23 @@ pub fn run(tier: &str) -> i32 {
                                 if !th && !near && (d + level as usize + r) % 3 != 0 {
                                     continue;
                                 }
-                                cases.push(Case { wbits: w, level, strat, relevel, r, filler, d, sync_cut: None });
+                                cases.push(Case { wbits: w, level, strat, relevel, r, filler, d, sync_cut: None, base: 0 });
                                 if near || th {
                                     for back in 0..=3usize {
-                                        cases.push(Case { wbits: w, level, strat, relevel, r, filler, d, sync_cut: Some(d - back) });
+                                        cases.push(Case { wbits: w, level, strat, relevel, r, filler, d, sync_cut: Some(d - back), base: 0 });
+                                    }
+                                }
+                                // the same repeat at absolute stream offsets around the 32 KiB dictionary
+                                // wrap and the 64 KiB / 128 KiB position-counter boundaries (the second
+                                // copy starts at `at`, the first one d bytes earlier)
+                                if (near || d == 32768 || (th && d >= 4096)) && r != 40 && (th || (filler == 0 && relevel.is_none())) {
+                                    for at in [32768 + 5, 65536 - 4, 65536 + 37, 131072 + 1] {
+                                        if !th && at == 32768 + 5 && (level + strat) % 2 != 0 {
+                                            continue;
+                                        }
+                                        if at > d {
+                                            cases.push(Case { wbits: w, level, strat, relevel, r, filler, d, sync_cut: None, base: at - d });
+                                        }
                                     }
                                 }
                             }
@@ -163,8 +180,8 @@ pub fn run(tier: &str) -> i32 {
             }
             Ok(Err((site, what))) => rep.violation(
                 &format!("C11/{}", site),
-                format!("{} :: with_params(Zlib, level {}, {}, window_bits {}){} input R({})+fill{}({})+R sync_cut={:?}", what, c.level, strat_name(STRATS[c.strat as usize]), c.wbits,
-                    c.relevel.map(|l| format!("+set_compression_level_raw({})", l)).unwrap_or_default(), c.r, c.filler, c.d - c.r, c.sync_cut),
+                format!("{} :: with_params(Zlib, level {}, {}, window_bits {}){} input fill({})+R({})+fill{}({})+R sync_cut={:?}", what, c.level, strat_name(STRATS[c.strat as usize]), c.wbits,
+                    c.relevel.map(|l| format!("+set_compression_level_raw({})", l)).unwrap_or_default(), c.base, c.r, c.filler, c.d - c.r, c.sync_cut),
                 to_json(c),
             ),
             Err(p) => rep.violation("C11/panic", format!("panic {}", p), to_json(c)),
@@ -178,7 +195,7 @@ pub fn run(tier: &str) -> i32 {
     rep.set("max_match_distance_seen", json!(maxd));
     rep.set("window_bits_values", json!(ws));
     rep.set("exhaustive", json!(true));
-    rep.set("rule", json!("with_params(Zlib, level 0..=10, 5 strategies, window_bits 8..=15 and the clamp values 0,1,7,16,255), optionally followed by set_compression_level_raw before the first call; inputs R(r) + filler(D-r) + R(r) (the same r incompressible bytes again D bytes later) for r in {8,40,258}, zero and periodic filler, D over a menu incl. window-1..window+3 for the configured window; one-shot and Sync-flush-at-D-0..3-then-Finish schedules; oracle: header CINFO+8 <= max(w,8), every match distance in the reference trace <= declared window, crate decoder with a ring of exactly the declared size and system zlib with windowBits = CINFO+8 fed 64-byte output chunks both return the input; non-trivial = the stream contains a match at distance > 1; cases are distinct by construction"));
+    rep.set("rule", json!("with_params(Zlib, level 0..=10, 5 strategies, window_bits 8..=15 and the clamp values 0,1,7,16,255), optionally followed by set_compression_level_raw before the first call; inputs R(r) + filler(D-r) + R(r) (the same r incompressible bytes again D bytes later) for r in {8,40,258}, zero and periodic filler, D over a menu incl. window-1..window+3 for the configured window; one-shot and Sync-flush-at-D-0..3-then-Finish schedules; the near-window and 32768 repeats additionally placed so that the second copy starts at absolute stream offsets 32773, 65532, 65573 and 131073 (dictionary wrap, 16-bit position wrap); oracle: header CINFO+8 <= max(w,8), every match distance in the reference trace <= declared window, crate decoder with a ring of exactly the declared size and system zlib with windowBits = CINFO+8 fed 64-byte output chunks both return the input; non-trivial = the stream contains a match at distance > 1; cases are distinct by construction"));
     rep.sample(to_json(&cases[cases.len() / 2]));
     rep.sample(to_json(&cases[cases.len() / 7]));
     if evals < 5000 || maxd < 16385 {
@@ -199,6 +216,7 @@ pub fn replay(v: &Value) -> Option<String> {
         filler: v["filler"].as_u64()? as u8,
         d: v["d"].as_u64()? as usize,
         sync_cut: v["sync_cut"].as_u64().map(|x| x as usize),
+        base: v["base"].as_u64().unwrap_or(0) as usize,
     };
     match guarded(|| check(&c)) {
         Ok(Ok(_)) => None,
